@@ -1,8 +1,11 @@
 /-
-C12 — GAP maintenance polls exactly the own GAP (core: `next_gap_poll` and the sweep it drives).
-The station-level clauses (one poll per token visit, status replies) live with the Station model.
+C12 — GAP maintenance polls exactly the own GAP (core: `next_gap_poll` and the sweep it drives),
+followed by the station-level clauses (one poll per token visit, whole GAP after a claim, the
+gap-wait pause, ready master becomes NS, truthful status replies) as exact step theorems about the
+handlers of `Model/Station.lean`, for every station state and every input.
 -/
 import ProfiVerif.Lemmas.Gap
+import ProfiVerif.Lemmas.StationGap
 
 namespace PV.C12
 open PV
@@ -202,5 +205,417 @@ example : sweepFrom 5 4 10 10 5 = [6, 7, 8, 9, 0, 1, 2, 3] := by decide
 example : sweepFrom 2 9 10 10 2 = [3, 4, 5, 6, 7, 8] := by decide
 example : sweepFrom 7 7 10 10 7 = [8, 9, 0, 1, 2, 3, 4, 5, 6] := by decide
 example : InGap 5 4 10 0 := by decide
+
+/-! # Station level
+
+All theorems below are about the handlers of `Model/Station.lean` (tied byte-exactly to
+`src/fdl/active.rs` by the station correspondence) and hold for EVERY context `c` (station state,
+application scripts, receive buffer) and every time `now`.  `c.tx = none` says that nothing was
+handed to the PHY earlier in this poll (true at the start of every poll: `Station.poll` starts with
+`tx := none`). -/
+
+open StationGap
+
+/-! ## 1. One GAP poll per token visit -/
+
+/-- While the synchronisation pause is not over `do_pass_token` does nothing (in particular no GAP
+bookkeeping, no poll). -/
+theorem pass_token_waits (c : Ctx) (now : Int) (g : Bool) (att : Attempt) (hst : c.s.st = .passToken g att)
+    (hw : ¬ SyncOver c.s now) : doPassToken c now = .ok { c with s := stamped c.s now } := by
+  unfold doPassToken
+  rw [hst]
+  have : (waitSyncPause c.s now).2 = true := by simpa [SyncOver] using hw
+  simp [this, sync_stamped]
+
+/-- **`gap_poll_once_per_visit` (exact step)**: `do_pass_token` at the end of a token visit
+(`do_gap = Yes`) advances the GAP state by exactly one `gapAdvance` step and then
+* transmits ONE FDL status request, to the new poll address `a`, and awaits its answer
+  (`AwaitStatusResponse a`) — the token is not passed in this poll; or
+* (GAP state `Waiting`) transmits no request and passes the token on. -/
+theorem gap_poll_once_per_visit (c : Ctx) (now : Int) (att : Attempt)
+    (hst : c.s.st = .passToken true att) (htx : c.tx = none) (hw : SyncOver c.s now) :
+    match gapAdvance (stamped c.s now) with
+    | none => doPassToken c now = .panic "next_gap_poll overflow"
+    | some (.doPoll a) =>
+      a ≠ c.s.p.address →
+        doPassToken c now =
+          .ok { c with tx := some (statusRequestBytes a c.s.p.address),
+                       s := { (markTx { (stamped c.s now) with gap := .doPoll a } now 6) with st := .awaitStatus a } }
+    | some (.waiting r) =>
+      doPassToken c now = passTokenOn { c with s := { (stamped c.s now) with gap := .waiting r } } now att := by
+  have hw' : (waitSyncPause c.s now).2 = false := hw
+  unfold doPassToken
+  rw [hst]
+  simp only [hw', sync_stamped, if_true, Bool.false_eq_true, if_false]
+  cases hga : gapAdvance (stamped c.s now) with
+  | none => simp
+  | some g =>
+    cases g with
+    | doPoll a =>
+      intro hne
+      simp only [upd]
+      rw [transmitGapPoll_poll { c with s := { (stamped c.s now) with gap := .doPoll a } } now a rfl hne htx]
+      simp [tr, toAwaitStatus, markTx, hst]
+    | waiting r =>
+      simp only [upd]
+      rw [transmitGapPoll_waiting { c with s := { (stamped c.s now) with gap := .waiting r } } now r rfl]
+
+/-- Readable corollary: whatever happens in a `do_pass_token` poll with `do_gap = Yes`, the station
+transmits nothing, or one status request (and is then in `AwaitStatusResponse` for exactly the
+polled address, which is the address `gapAdvance` computed), or the token to NS. -/
+theorem gap_poll_once_per_visit_outcomes (c c' : Ctx) (now : Int) (att : Attempt)
+    (hst : c.s.st = .passToken true att) (htx : c.tx = none) (h : doPassToken c now = .ok c') :
+    (c'.tx = none ∧ c'.s.st = .passToken true att ∧ c'.s.gap = c.s.gap) ∨
+    (∃ a, gapAdvance (stamped c.s now) = some (.doPoll a) ∧ c'.tx = some (statusRequestBytes a c.s.p.address) ∧
+          c'.s.st = .awaitStatus a ∧ c'.s.gap = .doPoll a) ∨
+    (∃ r, gapAdvance (stamped c.s now) = some (.waiting r) ∧ c'.tx = some (tokenBytes c.s.ring.ns c.s.p.address) ∧
+          c'.s.gap = .waiting r ∧ (c'.s.st = .checkTokenPass att ∨ c'.s.st = .useToken ⟨now, none⟩ false)) := by
+  by_cases hw : SyncOver c.s now
+  · have hstep := gap_poll_once_per_visit c now att hst htx hw
+    cases hga : gapAdvance (stamped c.s now) with
+    | none => rw [hga] at hstep; rw [hstep] at h; cases h
+    | some g =>
+      rw [hga] at hstep
+      cases g with
+      | doPoll a =>
+        simp only at hstep
+        by_cases hne : a = c.s.p.address
+        · -- the code would trip its `debug_assert_ne!`: no regular outcome
+          exfalso
+          have hw' : (waitSyncPause c.s now).2 = false := hw
+          unfold doPassToken at h
+          rw [hst] at h
+          simp only [hw', sync_stamped, if_true, Bool.false_eq_true, if_false, hga, upd] at h
+          rw [transmitGapPoll_self { c with s := { (stamped c.s now) with gap := .doPoll a } } now (by simp [hne])] at h
+          cases h
+        · rw [hstep hne] at h
+          cases h
+          exact Or.inr (Or.inl ⟨a, rfl, rfl, rfl, rfl⟩)
+      | waiting r =>
+        simp only at hstep
+        rw [hstep, passTokenOn_eq { c with s := { (stamped c.s now) with gap := .waiting r } } now att true att (by simpa using hst) htx] at h
+        cases h
+        refine Or.inr (Or.inr ⟨r, rfl, rfl, rfl, ?_⟩)
+        simp only
+        split
+        · exact Or.inr rfl
+        · exact Or.inl rfl
+  · rw [pass_token_waits c now true att hst hw] at h
+    cases h
+    exact Or.inl ⟨htx, by simpa using hst, rfl⟩
+
+/-- After the answer or the time-out the token is passed WITHOUT another GAP poll: `do_pass_token`
+with `do_gap = No` leaves the GAP state alone and transmits the token to NS. -/
+theorem pass_token_without_gap (c : Ctx) (now : Int) (att : Attempt)
+    (hst : c.s.st = .passToken false att) (htx : c.tx = none) (hw : SyncOver c.s now) :
+    doPassToken c now =
+      .ok { c with
+        tx := some (tokenBytes c.s.ring.ns c.s.p.address),
+        s := { (markTx (stamped c.s now) now 3) with
+          ring := c.s.ring.witness c.s.p.address c.s.ring.ns,
+          st := if (c.s.ring.witness c.s.p.address c.s.ring.ns).ns = c.s.p.address
+                then FState.useToken ⟨now, none⟩ false else FState.checkTokenPass att } } := by
+  have hw' : (waitSyncPause c.s now).2 = false := hw
+  unfold doPassToken
+  rw [hst]
+  simp only [hw', sync_stamped, Bool.false_eq_true, if_false]
+  rw [passTokenOn_eq { c with s := stamped c.s now } now att false att (by simpa using hst) htx]
+  rfl
+
+/-- `do_await_status_response`, nothing received and the slot time not yet over: keep waiting. -/
+theorem await_status_waits (c : Ctx) (now : Int) (addr : Nat) (rx' : Bytes) (ret : Bool)
+    (hst : c.s.st = .awaitStatus addr) (hne : addr ≠ c.s.p.address) (hg : c.s.gap = .doPoll addr)
+    (hrx : receiveTelegram c.rx = .done rx' [] ret) (hex : ¬ SlotExpired c.s now) :
+    doAwaitStatusResponse c now = .ok { c with rx := rx', s := stamped c.s now } := by
+  have hex' : (checkSlotExpired c.s now).2 = false := by simpa [SlotExpired] using hex
+  unfold doAwaitStatusResponse
+  rw [hst]
+  simp only [awaitGap_silent c now addr rx' ret hne hg hrx, hex', Bool.false_eq_true, if_false]
+
+/-- … slot time over without an answer: straight on to `PassToken` with `do_gap = No`, handled in
+the same poll. -/
+theorem await_status_timeout (c : Ctx) (now : Int) (addr : Nat) (rx' : Bytes) (ret : Bool)
+    (hst : c.s.st = .awaitStatus addr) (hne : addr ≠ c.s.p.address) (hg : c.s.gap = .doPoll addr)
+    (hrx : receiveTelegram c.rx = .done rx' [] ret) (hex : SlotExpired c.s now) :
+    doAwaitStatusResponse c now =
+      doPassToken { c with rx := rx', s := { (stamped c.s now) with st := .passToken false .first } } now := by
+  have hex' : (checkSlotExpired c.s now).2 = true := hex
+  unfold doAwaitStatusResponse
+  rw [hst]
+  simp only [awaitGap_silent c now addr rx' ret hne hg hrx, hex', if_true]
+  simp [tr, toPassToken, hst, Res.bind]
+
+/-- … a response telegram from the polled address: the ring view is updated iff the reply admits
+the station (`Admits`), and the state becomes `PassToken` with `do_gap = No`. -/
+theorem await_status_reply (c : Ctx) (now : Int) (addr : Nat) (rx' : Bytes) (t : Telegram) (l ret : Bool)
+    (rest : List (Telegram × Bool)) (state : ResponseState) (status : ResponseStatus)
+    (hst : c.s.st = .awaitStatus addr) (hne : addr ≠ c.s.p.address) (hg : c.s.gap = .doPoll addr)
+    (hrx : receiveTelegram c.rx = .done rx' ((t, l) :: rest) ret)
+    (hr : replyOf c.s.p.address addr t = some (state, status)) :
+    doAwaitStatusResponse c now =
+      if Admits state status then
+        match c.s.ring.setNextStation addr with
+        | some r => .ok { c with rx := rx', s := { (markRx c.s now) with ring := r, st := .passToken false .first } }
+        | none => .panic "set_next_station index"
+      else .ok { c with rx := rx', s := { (markRx c.s now) with st := .passToken false .first } } := by
+  have hst' : (markRx c.s now).st = .awaitStatus addr := by simpa [markRx, markBusActivity] using hst
+  unfold doAwaitStatusResponse
+  rw [hst]
+  by_cases ha : Admits state status
+  · simp only [awaitGap_admit c now addr rx' t l ret rest state status hne hg hrx hr ha, if_pos ha]
+    cases c.s.ring.setNextStation addr with
+    | none => rfl
+    | some r => simp [tr, toPassToken, hst']
+  · simp only [awaitGap_other c now addr rx' t l ret rest state status hne hg hrx hr ha, if_neg ha]
+    simp [tr, toPassToken, hst']
+
+/-- … anything else: the station backs off into `ActiveIdle` (it no longer holds the token). -/
+theorem await_status_unexpected (c : Ctx) (now : Int) (addr : Nat) (rx' : Bytes) (t : Telegram) (l ret : Bool)
+    (rest : List (Telegram × Bool))
+    (hst : c.s.st = .awaitStatus addr) (hne : addr ≠ c.s.p.address) (hg : c.s.gap = .doPoll addr)
+    (hrx : receiveTelegram c.rx = .done rx' ((t, l) :: rest) ret)
+    (hr : replyOf c.s.p.address addr t = none) :
+    doAwaitStatusResponse c now =
+      .ok { c with rx := rx', s := { (markRx c.s now) with st := .activeIdle none none 0 } } := by
+  have hst' : (markRx c.s now).st = .awaitStatus addr := by simpa [markRx, markBusActivity] using hst
+  unfold doAwaitStatusResponse
+  rw [hst]
+  simp only [awaitGap_unexpected c now addr rx' t l ret rest hne hg hrx hr]
+  simp [tr, toActiveIdle, hst']
+
+/-- **No second GAP poll in the same visit**: whatever is received, `do_await_status_response`
+transmits nothing or the token to NS — never another status request — and it leaves
+`AwaitStatusResponse` only towards `PassToken` with `do_gap = No`, (on a time-out) directly on to the
+supervision of the token pass, or (unexpected telegram) into `ActiveIdle`. -/
+theorem await_status_outcomes (c c' : Ctx) (now : Int) (addr : Nat)
+    (hst : c.s.st = .awaitStatus addr) (htx : c.tx = none) (h : doAwaitStatusResponse c now = .ok c') :
+    (c'.tx = none ∧ c'.s.gap = c.s.gap ∧
+      (c'.s.st = .awaitStatus addr ∨ c'.s.st = .passToken false .first ∨ c'.s.st = .activeIdle none none 0)) ∨
+    (c'.tx = some (tokenBytes c.s.ring.ns c.s.p.address) ∧ c'.s.gap = c.s.gap ∧
+      (c'.s.st = .checkTokenPass .first ∨ c'.s.st = .useToken ⟨now, none⟩ false)) := by
+  by_cases hne : addr = c.s.p.address
+  · exfalso
+    have := awaitGap_self c now addr hne
+    unfold doAwaitStatusResponse at h
+    rw [hst] at h
+    simp only at h
+    split at h <;> simp_all
+  by_cases hg' : c.s.gap ≠ .doPoll addr
+  · exfalso
+    have := awaitGap_wrongGap c now addr hne hg'
+    unfold doAwaitStatusResponse at h
+    rw [hst] at h
+    simp only at h
+    split at h <;> simp_all
+  have hg : c.s.gap = .doPoll addr := Decidable.not_not.mp hg'
+  cases hrx : receiveTelegram c.rx with
+  | panic =>
+    exfalso
+    obtain ⟨m, hm⟩ := awaitGap_rxPanic c now addr hne hg (Or.inl hrx)
+    unfold doAwaitStatusResponse at h
+    rw [hst] at h
+    simp only at h
+    split at h <;> simp_all
+  | hang =>
+    exfalso
+    obtain ⟨m, hm⟩ := awaitGap_rxPanic c now addr hne hg (Or.inr hrx)
+    unfold doAwaitStatusResponse at h
+    rw [hst] at h
+    simp only at h
+    split at h <;> simp_all
+  | done rx' calls ret =>
+    cases calls with
+    | nil =>
+      by_cases hex : SlotExpired c.s now
+      · rw [await_status_timeout c now addr rx' ret hst hne hg hrx hex] at h
+        obtain ⟨c1, hc1⟩ : ∃ c1 : Ctx, c1 = { c with rx := rx', s := { (stamped c.s now) with st := .passToken false .first } } :=
+          ⟨_, rfl⟩
+        rw [← hc1] at h
+        have h1 : c1.s.st = .passToken false .first := by rw [hc1]
+        have h2 : c1.tx = none := by rw [hc1]; exact htx
+        have h3 : c1.s.ring = c.s.ring ∧ c1.s.p = c.s.p ∧ c1.s.gap = c.s.gap := by rw [hc1]; exact ⟨rfl, rfl, rfl⟩
+        by_cases hw : SyncOver c1.s now
+        · rw [pass_token_without_gap c1 now .first h1 h2 hw] at h
+          cases h
+          refine Or.inr ⟨by simp only [h3.1, h3.2.1], by simpa [markTx] using h3.2.2, ?_⟩
+          simp only
+          split
+          · exact Or.inr rfl
+          · exact Or.inl rfl
+        · rw [pass_token_waits c1 now false .first h1 hw] at h
+          cases h
+          exact Or.inl ⟨h2, by simpa using h3.2.2, Or.inr (Or.inl (by simpa using h1))⟩
+      · rw [await_status_waits c now addr rx' ret hst hne hg hrx hex] at h
+        cases h
+        exact Or.inl ⟨htx, rfl, Or.inl (by simpa using hst)⟩
+    | cons tl rest =>
+      obtain ⟨t, l⟩ := tl
+      cases hr : replyOf c.s.p.address addr t with
+      | none =>
+        rw [await_status_unexpected c now addr rx' t l ret rest hst hne hg hrx hr] at h
+        cases h
+        exact Or.inl ⟨htx, rfl, Or.inr (Or.inr rfl)⟩
+      | some ss =>
+        obtain ⟨state, status⟩ := ss
+        rw [await_status_reply c now addr rx' t l ret rest state status hst hne hg hrx hr] at h
+        split at h
+        · split at h
+          · cases h
+            exact Or.inl ⟨htx, rfl, Or.inr (Or.inl rfl)⟩
+          · cases h
+        · cases h
+          exact Or.inl ⟨htx, rfl, Or.inr (Or.inl rfl)⟩
+
+/-! ### The exception: the post-claim sweep of `ClaimToken` polls the whole GAP -/
+
+/-- While the synchronisation pause is not over the scan step does nothing. -/
+theorem claim_scan_waits (c : Ctx) (now : Int) (fuel : Nat) (hst : c.s.st = .claimToken .scan)
+    (hw : ¬ SyncOver c.s now) : doClaimToken c now (fuel + 1) = .ok { c with s := stamped c.s now } := by
+  have : (waitSyncPause c.s now).2 = true := by simpa [SyncOver] using hw
+  unfold doClaimToken
+  rw [hst]
+  simp [this, sync_stamped]
+
+/-- **`claim_scan_step` (exact)**: one scan step of `do_claim_token` after the token was claimed.
+* GAP state `Waiting` (the sweep is complete): on to `PassToken` with `do_gap = No`;
+* GAP state `DoPoll cur`: the cursor advances by exactly one `next_gap_poll` step; if that yields
+  another GAP address `a`, ONE status request is sent to `a` and its answer awaited
+  (`ScanAwaitResponse a`), otherwise the GAP state becomes `Waiting` (and the next poll passes the
+  token).  So the station keeps the token and polls address after address until the sweep ends. -/
+theorem claim_scan_step (c : Ctx) (now : Int) (fuel : Nat) (hst : c.s.st = .claimToken .scan)
+    (htx : c.tx = none) (hw : SyncOver c.s now) :
+    doClaimToken c now (fuel + 1) =
+      match c.s.gap with
+      | .waiting _ => .ok { c with s := { (stamped c.s now) with st := .passToken false .first } }
+      | .doPoll cur =>
+        match nextGap c.s cur with
+        | none => .panic "next_gap_poll overflow"
+        | some (.waiting r) => .ok { c with s := { (stamped c.s now) with gap := .waiting r } }
+        | some (.doPoll a) =>
+          if a = c.s.p.address then .panic "debug_assert_ne!(current_address, self.p.address)" else
+          .ok { c with tx := some (statusRequestBytes a c.s.p.address),
+                       s := { (markTx { (stamped c.s now) with gap := .doPoll a } now 6) with
+                              st := .claimToken (.scanAwait a) } } := by
+  have hw' : (waitSyncPause c.s now).2 = false := hw
+  unfold doClaimToken
+  rw [hst]
+  simp only [hw', sync_stamped, Bool.false_eq_true, if_false, stamped_gap]
+  cases hg : c.s.gap with
+  | waiting r => simp [tr, toPassToken, hst, hg]
+  | doPoll cur =>
+    simp only
+    have hn : nextGap (stamped c.s now) cur = nextGap c.s cur := rfl
+    rw [hn]
+    cases hng : nextGap c.s cur with
+    | none => rfl
+    | some g =>
+      cases g with
+      | waiting r =>
+        simp only [upd]
+        rw [transmitGapPoll_waiting { c with s := { (stamped c.s now) with gap := .waiting r } } now r rfl]
+      | doPoll a =>
+        simp only [upd]
+        by_cases hne : a = c.s.p.address
+        · rw [transmitGapPoll_self { c with s := { (stamped c.s now) with gap := .doPoll a } } now (by simp [hne])]
+          simp [hne]
+        · rw [transmitGapPoll_poll { c with s := { (stamped c.s now) with gap := .doPoll a } } now a rfl hne htx]
+          simp [hne]
+
+/-- `ScanAwaitResponse`, nothing received and the slot time not yet over: keep waiting. -/
+theorem claim_await_waits (c : Ctx) (now : Int) (fuel addr : Nat) (rx' : Bytes) (ret : Bool)
+    (hst : c.s.st = .claimToken (.scanAwait addr)) (hne : addr ≠ c.s.p.address) (hg : c.s.gap = .doPoll addr)
+    (hrx : receiveTelegram c.rx = .done rx' [] ret) (hex : ¬ SlotExpired c.s now) :
+    doClaimToken c now (fuel + 1) = .ok { c with rx := rx', s := stamped c.s now } := by
+  have hex' : (checkSlotExpired c.s now).2 = false := by simpa [SlotExpired] using hex
+  unfold doClaimToken
+  rw [hst]
+  simp only [awaitGap_silent c now addr rx' ret hne hg hrx, hex', Bool.false_eq_true, if_false]
+
+/-- … slot time over without an answer: the next scan step is taken in the same poll. -/
+theorem claim_await_timeout (c : Ctx) (now : Int) (fuel addr : Nat) (rx' : Bytes) (ret : Bool)
+    (hst : c.s.st = .claimToken (.scanAwait addr)) (hne : addr ≠ c.s.p.address) (hg : c.s.gap = .doPoll addr)
+    (hrx : receiveTelegram c.rx = .done rx' [] ret) (hex : SlotExpired c.s now) :
+    doClaimToken c now (fuel + 1) =
+      doClaimToken { c with rx := rx', s := { (stamped c.s now) with st := .claimToken .scan } } now fuel := by
+  have hex' : (checkSlotExpired c.s now).2 = true := hex
+  conv => lhs; unfold doClaimToken
+  rw [hst]
+  simp only [awaitGap_silent c now addr rx' ret hne hg hrx, hex', if_true]
+  rfl
+
+/-- … a response telegram from the polled address: the ring view is updated iff the reply admits
+the station, and the scan goes on (`Scan`) with the same cursor. -/
+theorem claim_await_reply (c : Ctx) (now : Int) (fuel addr : Nat) (rx' : Bytes) (t : Telegram) (l ret : Bool)
+    (rest : List (Telegram × Bool)) (state : ResponseState) (status : ResponseStatus)
+    (hst : c.s.st = .claimToken (.scanAwait addr)) (hne : addr ≠ c.s.p.address) (hg : c.s.gap = .doPoll addr)
+    (hrx : receiveTelegram c.rx = .done rx' ((t, l) :: rest) ret)
+    (hr : replyOf c.s.p.address addr t = some (state, status)) :
+    doClaimToken c now (fuel + 1) =
+      if Admits state status then
+        match c.s.ring.setNextStation addr with
+        | some r => .ok { c with rx := rx', s := { (markRx c.s now) with ring := r, st := .claimToken .scan } }
+        | none => .panic "set_next_station index"
+      else .ok { c with rx := rx', s := { (markRx c.s now) with st := .claimToken .scan } } := by
+  unfold doClaimToken
+  rw [hst]
+  by_cases ha : Admits state status
+  · simp only [awaitGap_admit c now addr rx' t l ret rest state status hne hg hrx hr ha, if_pos ha]
+    cases c.s.ring.setNextStation addr with
+    | none => rfl
+    | some r => simp [upd]
+  · simp only [awaitGap_other c now addr rx' t l ret rest state status hne hg hrx hr ha, if_neg ha]
+    simp [upd]
+
+/-- … anything else: back off into `ActiveIdle`. -/
+theorem claim_await_unexpected (c : Ctx) (now : Int) (fuel addr : Nat) (rx' : Bytes) (t : Telegram) (l ret : Bool)
+    (rest : List (Telegram × Bool))
+    (hst : c.s.st = .claimToken (.scanAwait addr)) (hne : addr ≠ c.s.p.address) (hg : c.s.gap = .doPoll addr)
+    (hrx : receiveTelegram c.rx = .done rx' ((t, l) :: rest) ret)
+    (hr : replyOf c.s.p.address addr t = none) :
+    doClaimToken c now (fuel + 1) =
+      .ok { c with rx := rx', s := { (markRx c.s now) with st := .activeIdle none none 0 } } := by
+  have hst' : (markRx c.s now).st = .claimToken (.scanAwait addr) := by simpa [markRx, markBusActivity] using hst
+  unfold doClaimToken
+  rw [hst]
+  simp only [awaitGap_unexpected c now addr rx' t l ret rest hne hg hrx hr]
+  simp [tr, toActiveIdle, hst']
+
+/-! ## Non-vacuity of the station-level theorems: a concrete station 7 (HSA 126, NS 20, PS 3) -/
+
+def demoP : Params :=
+  { address := 7, rate := 500000, slotBits := 200, ttrBits := 20000, gapWait := 10, hsa := 126,
+    maxRetry := 1, minTsdrBits := 11 }
+
+/-- Station 7 in FDL state `st` with GAP state `gap`, last bus activity at t = 0, receive buffer `rx`. -/
+def demo (st : FState) (gap : GapState) (rx : Bytes) (las : LasState := .valid) : Ctx :=
+  { s := { (Station.new demoP) with
+            online := true, st := st, gap := gap, lastBusActivity := some 0,
+            ring := { active := Vector.ofFn fun i => decide (i.val = 3 ∨ i.val = 7 ∨ i.val = 20),
+                      ts := 7, ps := 3, ns := 20, las := las } },
+    apps := [], rx := rx }
+
+/-- Observable summary of a step result. -/
+def obs : Res → Option (FState × GapState × Option Bytes × Nat)
+  | .ok c => some (c.s.st, c.s.gap, c.tx, c.s.ring.ns)
+  | .panic _ => none
+
+-- 1. end of a visit, sweep running at 8: one request to 9, then AwaitStatusResponse 9
+example : SyncOver (demo (.passToken true .first) (.doPoll 8) []).s 1000 := by decide
+example : obs (doPassToken (demo (.passToken true .first) (.doPoll 8) []) 1000) =
+    some (.awaitStatus 9, .doPoll 9, some (statusRequestBytes 9 7), 20) := by decide
+-- time-out: the token goes to 20 in the same poll, no further request
+example : SlotExpired (demo (.awaitStatus 9) (.doPoll 9) []).s 1000 := by decide
+example : obs (doAwaitStatusResponse (demo (.awaitStatus 9) (.doPoll 9) []) 1000) =
+    some (.checkTokenPass .first, .doPoll 9, some (tokenBytes 20 7), 20) := by decide
+-- post-claim scan: request to 9, and on its time-out at once the request to 10
+example : obs (doClaimToken (demo (.claimToken .scan) (.doPoll 8) []) 1000 2) =
+    some (.claimToken (.scanAwait 9), .doPoll 9, some (statusRequestBytes 9 7), 20) := by decide
+example : obs (doClaimToken (demo (.claimToken (.scanAwait 9)) (.doPoll 9) []) 1000 2) =
+    some (.claimToken (.scanAwait 10), .doPoll 10, some (statusRequestBytes 10 7), 20) := by decide
+-- … until the address before NS was polled: the sweep is over, then the token is passed
+example : obs (doClaimToken (demo (.claimToken (.scanAwait 19)) (.doPoll 19) []) 1000 2) =
+    some (.claimToken .scan, .waiting 0, none, 20) := by decide
+example : obs (doClaimToken (demo (.claimToken .scan) (.waiting 0) []) 1000 2) =
+    some (.passToken false .first, .waiting 0, none, 20) := by decide
 
 end PV.C12
